@@ -45,8 +45,10 @@ def _empty_test(d):
 
 
 def analyse_paths(prog, fnkey, mods):
-    """Per acyclic path: final abstract state of self's fields, the writes, the return value."""
-    b = prog.body(fnkey)
+    """Per acyclic path: final abstract state of self's fields, the writes, the return value.
+    The function is analysed with its loop-free private helpers spliced in (e.g. a shared reset helper)."""
+    from . import roles as _roles
+    b = _roles.ib_paths(prog, fnkey)
     out = []
     for path in enumerate_paths(b):
         state = {}          # field -> 'E' | 'N'  (absent = unknown at entry = 'N' unless refined)
